@@ -35,7 +35,8 @@ CLAIM = dict(
 
 THEOREMS = ["consts_documented", "chipinfo_roundtrip", "p2p_roundtrip", "p2p_table_mem", "sysinfo_exact",
             "sysinfo_mem", "sysinfo_extent", "dead_chips_complement", "dead_links_complement",
-            "build_machine_exact", "reservations_partition", "global_reservation_shared"]
+            "build_machine_exact", "reservations_partition", "global_reservation_shared", "iobuf_chain",
+            "iobuf_bytes_exact", "sver_both_encodings"]
 
 RULE = ("cases = machine states: (system) P2P dimensions 1..12 x 1..12 and sparse 255-wide/high tables, listed / "
         "unlisted / unresponsive (silent or error-code) / ghost chips, per-chip core counts, state patterns shared by "
